@@ -101,8 +101,9 @@ CHECKS = {
     technique='Coq proof by evaluation of the translated macro bodies on symbolic operands + differential correspondence'),
  'C16': dict(
     text='Theorems (Coq): resolve is idempotent for every form and scope stack; the command-line pipeline (passes then Wal.eval running the passes again) equals the API pipeline on '
-         'every form whose processed version is a fixed point of expand and optimize; run_file is the sequence of Wal.eval calls; falsy forms skipped. PARTIAL: reader/printer/'
-         'pickle legs, process exit codes and expand-idempotence are decided by running the five real entry points as subprocesses and comparing them.' + DIFF,
+         'every form whose processed version is a fixed point of expand and optimize; a form without macro calls is a fixed point of expand and expanding it leaves the state unchanged '
+         '(ExpandProofs.v); run_file is the sequence of Wal.eval calls; falsy forms skipped. PARTIAL: reader/printer/pickle legs, process exit codes and the macro-freeness of '
+         'expand output are decided by running the five real entry points as subprocesses and comparing them.' + DIFF,
     technique='Coq proof (resolve idempotence, pipeline equality on pass fixed points) + subprocess path comparison + differential correspondence'),
  'C17': dict(
     text='Theorems (Coq, induction over the whole evaluator, one lemma per operator): every completed evaluation leaves the current frame, scope, group and index stack as they '
